@@ -150,7 +150,7 @@ def rule_crash(ctx):
     for b in F.bodies.values():
         if b.crate != 'pie' or b.is_test_code() or b.kind != 'AssocFn':
             continue
-        if any(F.callee_body(c) is not None and F.callee_body(c).name == 'build' and type_head(F.callee_body(c).impl_self or '') == 'pie::pie::Tracking' for c in b.calls.values()):
+        if any(F.callee_body(c) is not None and F.callee_body(c).name == 'build' and type_head(F.callee_body(c).impl_self or '') == ctx.roles.tracking_adt for c in b.calls.values()):
             entries.append(b)
     R.floor('U2-P1', 'build entry points', len(entries), 2, props=P)
     for b in entries:
@@ -263,7 +263,7 @@ def rule_stale_residue(ctx):
     removing = {b.id for b in F.bodies.values() if b.crate == 'pie' and not b.is_test_code() and b.impl_self and type_head(b.impl_self) == roles.store_adt
                 and any(c.qname in (DAG + 'remove_outgoing_edges_of_node', DAG + 'remove_edge') for x in F.with_closures(b) for c in x.calls.values())}
     entries = [b for b in F.bodies.values() if b.crate == 'pie' and not b.is_test_code() and b.kind == 'AssocFn' and
-               any(F.callee_body(c) is not None and F.callee_body(c).name == 'build' and type_head(F.callee_body(c).impl_self or '') == 'pie::pie::Tracking' for c in b.calls.values())]
+               any(F.callee_body(c) is not None and F.callee_body(c).name == 'build' and type_head(F.callee_body(c).impl_self or '') == ctx.roles.tracking_adt for c in b.calls.values())]
     purged = bool(entries)
     for b in entries:
         inf = ctx.infeasible(b)
